@@ -20,7 +20,7 @@ import (
 func TestVerifC18Ints(t *testing.T) {
 	r := vkit.Start(t, "C18", "integer-encodings", 100*time.Second, 400*time.Second)
 	defer r.Finish()
-	r.Rule = "byte lengths 0..40 and {127,128,255,256,257} x patterns {00.., 01.., 7F.., 80.., FF.., leading zero bytes, alternating} (+ the negatives of all of them) x encodings {JSON base64 (MarshalText), JSON decimal (decode only), XML, binary, CBOR}; non-trivial = distinct (value, encoding); oracle: non-negative: decode(encode(x)) == x and re-encoding is byte-identical; negative: every text path (JSON, XML) either errors or round-trips to the same value - never to a different one; decoders refuse negative text"
+	r.Rule = "byte lengths 0..40 and {127,128,255,256,257} x patterns {00.., 01.., 7F.., 80.., FF.., leading zero bytes, alternating} (+ the negatives of all of them) x encodings {JSON base64 (MarshalText), JSON decimal (decode only), XML, binary, CBOR}, each also decoded into a receiver (struct field, slice element) that already holds another value; non-trivial = distinct (value, encoding); oracle: non-negative: decode(encode(x)) == x and re-encoding is byte-identical; negative: every text path (JSON, XML) either errors or round-trips to the same value - never to a different one; decoders refuse negative text"
 	var vals []*Int
 	lens := []int{}
 	for l := 0; l <= 40; l++ {
@@ -124,6 +124,42 @@ func TestVerifC18Ints(t *testing.T) {
 				}
 			}
 			if !neg {
+				// used receivers: decoding into an integer that already holds another (non-zero) value - what
+				// encoding/json does with non-nil pointer fields and existing slice elements when a message
+				// struct is decoded into a second time - must give the decoded value, not keep the old one
+				junk := func() *Int { return new(Int).Add(x, NewInt(65536)) }
+				if b1, err := json.Marshal(S{x}); err == nil {
+					out := S{V: junk()}
+					err = json.Unmarshal(b1, &out)
+					check("json-base64+used-receiver", out.V, err, nil, nil)
+					var l []*Int
+					lb, _ := json.Marshal([]*Int{x, junk()})
+					l = []*Int{junk(), junk()}
+					err = json.Unmarshal(lb, &l)
+					if err == nil && len(l) == 2 {
+						check("json-base64+used-slice", l[0], err, nil, nil)
+					}
+				}
+				{
+					out := S{V: junk()}
+					err := json.Unmarshal([]byte(`{"v":`+x.String()+`}`), &out)
+					check("json-decimal+used-receiver", out.V, err, nil, nil)
+				}
+				if b1, err := xml.Marshal(S{x}); err == nil {
+					out := S{V: junk()}
+					err = xml.Unmarshal(b1, &out)
+					check("xml+used-receiver", out.V, err, nil, nil)
+				}
+				if b1, err := x.MarshalBinary(); err == nil {
+					out := junk()
+					err = out.UnmarshalBinary(b1)
+					check("binary+used-receiver", out, err, nil, nil)
+				}
+				if c1, err := cbor.Marshal(S{x}, cbor.EncOptions{}); err == nil {
+					out := S{V: junk()}
+					err = cbor.Unmarshal(c1, &out)
+					check("cbor+used-receiver", out.V, err, nil, nil)
+				}
 				// binary
 				b1, err := x.MarshalBinary()
 				out := new(Int)
